@@ -80,7 +80,7 @@ def pattern_norm(p: bytes) -> bytes:
 
 # ------------------------------------------------------------------ choices
 class Canon:
-    alt = False
+    """Spec/Grammar.v `canon`: lower case, atoms where possible, no optional syntax, one-token search spellings"""
 
     def kw(self, site, word: str) -> bytes:
         return word.encode()
@@ -89,13 +89,12 @@ class Canon:
         return 0
 
     def opt(self, site) -> bool:
-        return False
+        return site == 59
 
 
 class Rand:
-    def __init__(self, rng, alt=True):
+    def __init__(self, rng):
         self.rng = rng
-        self.alt = alt
         self.style = rng.choice(["upper", "lower", "mixed", "mixed"])
 
     def kw(self, site, word):
@@ -266,7 +265,7 @@ def r_fetch_atts(ch, l):
 
 def r_skey(ch, k):
     t = k[0]
-    alt = ch.alt and ch.opt(59)
+    alt = ch.opt(59)
     if t == "all":
         return ch.kw(50, "all")
     if t == "keyword":
